@@ -448,3 +448,47 @@ def check_cfginv(facts):
         core.hir_walk(h["body"], visit)
     r.floor("cfg_attributes", n, 25)
     return r
+
+
+# ---- COUNTSIB -------------------------------------------------------------------------------
+
+def check_countsib(facts):
+    """CodePointSet::inverted_interval_count is documented as the number of intervals `inverted` would produce (the
+    optimizer picks the cheaper polarity from it). The two are written as the same walk; after rewriting `v.push(..)`
+    and `n += 1` to the same token, dropping the accumulator's declaration and the final expression, the trees must
+    be identical: every interval of the complement is pushed under exactly the condition under which it is counted
+    (a changed bound in one of them — `<` for `<=` at U+10FFFF — loses or invents the last interval)."""
+    r = RuleResult("COUNTSIB", " ".join(check_countsib.__doc__.split()))
+    fa, fb = "codepointset::CodePointSet::inverted_interval_count", "codepointset::CodePointSet::inverted"
+    if fa not in facts.hir or fb not in facts.hir:
+        r.error("anchors %s / %s not found" % (fa, fb))
+        return r
+
+    def rewrite(t, acc):
+        if isinstance(t, tuple):
+            if t and t[0] == "mcall" and t[1] == "push" and t[2] == ("v", acc):
+                return ("INC",)
+            if t and t[0] == "assignop" and t[1] == "+=" and t[2] == ("v", acc) and t[3] == ("lit", 1):
+                return ("INC",)
+            return tuple(rewrite(x, acc) for x in t)
+        return t
+    trees = []
+    for fn in (fa, fb):
+        t = norm(facts.hir[fn]["body"])
+        if not (isinstance(t, tuple) and t and t[0] == "block" and t[1] and t[1][0][0] == "let"):
+            r.fail("%s shape" % fn, "unrecognised shape (expected `let acc = ..; walk; result`)", facts.loc(fn))
+            return r
+        acc = t[1][0][1][1]
+        trees.append((acc, rewrite(t[1][1:], acc)))
+    key = "%s ~ %s" % (fa.split("::")[-1], fb.split("::")[-1])
+    ninc = json.dumps(trees[0][1]).count('"INC"')
+    if trees[0][1] == trees[1][1] and ninc >= 2:
+        r.ok(key, "%d counted/pushed intervals under identical conditions" % ninc)
+        r.sample({"siblings": [fa, fb], "normal_form": json.dumps(trees[0][1])[:300]})
+    else:
+        a, b = json.dumps(trees[0][1]), json.dumps(trees[1][1])
+        i = next((i for i, (x, y) in enumerate(zip(a, b)) if x != y), min(len(a), len(b)))
+        r.fail(key, "`inverted` does not push an interval under exactly the conditions `inverted_interval_count` counts one: near …%s… vs …%s… "
+                    "— a complement loses or gains an interval (e.g. the one ending at U+10FFFF)" % (a[max(0, i - 90):i + 60], b[max(0, i - 90):i + 60]),
+               facts.loc(fb))
+    return r
